@@ -12,7 +12,10 @@ REQUIRED = ['C01.sift_residual_inv', 'C01.sift_complete', 'C01.sift_complete_unl
             'C01.sift_pipeline_complete', 'C01.sift_pipeline_last_nonoscillatory',
             'C01.sift_getNextImf_complete_or_energy', 'C01.sift_getNextImf_complete_energy_silent',
             'C01.sift_getNextImf_cutshort_cases', 'C01.lastEnergyFires_of_none', 'C01.sift_last_nonoscillatory_or_energy',
-            'C01.pipeline_envelopes_faithful', 'C01.pipeline_pad0_not_represented', 'C01.sift_pipeline_cutshort_cases']
+            'C01.pipeline_envelopes_faithful', 'C01.pipeline_pad0_not_represented', 'C01.sift_pipeline_cutshort_cases',
+            # the option model (C06) under the sift model: no energy threshold supplied => none at any extraction => complete
+            # (seeded C01-7: fallback imf options gaining energy_thresh)
+            'C01.sift_no_unrequested_energy_stop']
 TRUSTED = ['the single-IMF extraction is an oracle table in the SIFT correspondence: row k holds the output and flag of the real '
            'public emd.sift.get_next_imf applied to the residual x - sum(c_0..c_{k-1}) computed by the harness; the model replays '
            'its own outer loop, recomputes every residual exactly and rejects the table (oracle-desync) if a residual drifts by more '
